@@ -130,7 +130,7 @@ func C20(tier string) int {
 		}
 		gen(nil)
 		totalPages += len(seqsI)
-		res.Rule = fmt.Sprintf("ordered-collection pages whose items are every sequence of length 0..%d over {IRI a, IRI b, embedded Note a, embedded Note b, embedded Create a, embedded value without id} (%d pages), and every sequence of length 0..3 over 11 items whose ids differ in exactly one URL component (host, scheme, fragment, query, port, trailing slash, case, sub-path; IRI and embedded), served through GetInbox and GetOutbox; every pair of {GetInbox, GetOutbox, handler x 2 values} handled concurrently on one Actor under the cooperative scheduler (all interleavings of seam calls and clock reads): each response carries the Digest of its own bytes and equals the one served alone; handler values of every vocabulary type, Tombstone, missing value, Get error; %d clock instants at second/day/year boundaries in 5 time zones; a third of the pages and half of the handler values served on a ResponseWriter that already carries stale Content-Type / Date / Digest values (each must end with exactly one, correct value); oracle: body JSON-equal to the supplied value with (inbox) later duplicates of an id removed and order kept, Content-Type constant, Date = clock in RFC 7231 GMT form, Digest = base64 SHA-256 of the bytes written, 410 for a Tombstone, ErrNotFound with nothing written for a missing value; non-trivial = pages with at least one duplicate id or a handler value", maxLen, len(seqsI), len(clocks))
+		res.Rule = fmt.Sprintf("ordered-collection pages whose items are every sequence of length 0..%d over {IRI a, IRI b, embedded Note a, embedded Note b, embedded Create a, embedded value without id} (%d pages), and every sequence of length 0..3 over 11 items whose ids differ in exactly one URL component (host, scheme, fragment, query, port, trailing slash, case, sub-path; IRI and embedded), served through GetInbox and GetOutbox; every pair of {GetInbox, GetOutbox, handler x 2 values} handled concurrently on one Actor under the cooperative scheduler (all interleavings of seam calls and clock reads): each response carries the Digest of its own bytes and equals the one served alone; handler values of every vocabulary type, Tombstone, missing value, Get error; %d clock instants at second/day/year boundaries in 5 time zones; a third of the pages and half of the handler values served on a ResponseWriter that already carries stale Content-Type / Date / Digest values (each must end with exactly one, correct value); every sequence of 2-3 (thorough 4) read requests over 8 request kinds on ONE application and one handler value, each answered exactly as when served alone; oracle: body JSON-equal to the supplied value with (inbox) later duplicates of an id removed and order kept, Content-Type constant, Date = clock in RFC 7231 GMT form, Digest = base64 SHA-256 of the bytes written, 410 for a Tombstone, ErrNotFound with nothing written for a missing value; non-trivial = pages with at least one duplicate id or a handler value", maxLen, len(seqsI), len(clocks))
 		var mu sync.Mutex
 		chunk := 400
 		parallel((len(seqsI)+chunk-1)/chunk, func(ci int) {
@@ -277,7 +277,9 @@ func C20(tier string) int {
 			}
 			return d
 		}
-		get := func(name, entry, url string) *Scenario { return &Scenario{Name: name, Kind: ap.Both, Entry: entry, URL: url} }
+		get := func(name, entry, url string) *Scenario {
+			return &Scenario{Name: name, Kind: ap.Both, Entry: entry, URL: url}
+		}
 		kinds := []*Scenario{get("get-inbox", "GetInbox", inbox(Alice)), get("get-outbox", "GetOutbox", outbox(Alice)), get("get-note1", "Handler", Note1), get("get-note2", "Handler", Note2)}
 		nConc, nExec := 0, 0
 		for i := range kinds {
@@ -481,5 +483,6 @@ func C20(tier string) int {
 		}
 	}
 	res.Extra["clock_instants"] = len(clocks)
+	getHistories(res, "C20", map[bool]int{false: 3, true: 4}[res.Thorough()])
 	return res.Finish()
 }
